@@ -267,7 +267,7 @@ class Ctx:
             "wall_s": round(wall, 3),
             "violations": self.violations,
         }
-        if not self.replay_mode:
+        if not self.replay_mode and "VH_NO_EVIDENCE" not in os.environ:
             os.makedirs(os.path.join(VERIF, "evidence"), exist_ok=True)
             with open(os.path.join(VERIF, "evidence", self.pid + ".json"), "w") as f:
                 json.dump(doc, f, indent=1, default=repr)
